@@ -163,7 +163,7 @@ def install_seams():
     import ci.github as g
     from hailtop.batch_client import aioclient
 
-    logging.disable(logging.CRITICAL)
+    logging.disable(logging.NOTSET)  # records are built and formatted by boot._FormatAndDrop, then dropped
     g.check_shell = _fake_check_shell
     g.check_shell_output = _fake_check_shell_output
     g.BuildConfiguration = FakeBuildConfiguration
